@@ -462,3 +462,27 @@ class P(Prop):
                 if f is not None and f["desc"]:
                     g = dict(f, desc=[])
                     yield dict(case, files=files[:i] + [recs[:j] + [dict(r, fields=g, header=compose(g))] + recs[j + 1 :]] + files[i + 1 :])
+
+
+# ---- command-line cases (the property's second observation point, the three annotation columns of the WRITTEN table): the
+# real `picked_group_fdr.main(argv)` in-process against the composed Lean model PgFdr.Cli.cliOutcome (harness/cli_model.py).
+# Oracle = the C19 statement only (harness/pipeline_oracles.py:table_statement_c19): every row of a method that maps peptides
+# through the FASTA digest lists identifiers of the FASTA records under the run's identifier rule, and the annotation columns
+# list each distinct identifier / gene / header of the row's proteins once, against the headers the generator composed.
+# Cases are drawn towards the combinations of --gene_level / --fasta_use_uniprot_id / --fasta_contains_decoys on gene-rich
+# and gene-poor (pseudo-gene fall-back) databases (pipeline_oracles.FLAG_TARGETS)
+import pipeline_oracles as _po  # noqa: E402
+
+_BaseP = P
+
+
+class P(_po.CliStatementMixin, _BaseP):
+    cli_model_share = 0.015    # ~45 of the 3 000 quick cases
+    cli_oracles = ("c19",)
+    cli_flag_targets = True
+    rule = _BaseP.rule + (
+        "; 1.5 % of the cases run the whole command line in process (harness/cli_model.py: 1-3 shipped MaxQuant / Percolator "
+        "methods, generated UniProt-style FASTA and evidence files; --gene_level x --fasta_use_uniprot_id x "
+        "--fasta_contains_decoys on databases where most / at most half of the records carry a gene name) and state C19 on "
+        "the identifiers and the three annotation columns of every written row"
+    )
